@@ -374,6 +374,8 @@ CORPUS = [
          sG=1, spsi=1, nphi=31),
     # an axis with a curvature dip: the normal turns by more than one quadrant between two grid points
     dict(rc=[1.0, 0.2123], zs=[0.0, 0.1556], rs=[0.0, 0.027], zc=[0.0, 0.0354], nfp=2, etabar=0.9, order='r1', nphi=61),
+    # resolved (spectral tail 1e-12) third-order object with pressure, B0 != 1, sG = -1 and a non-symmetric axis: closed forms that agree when B0 = 1 differ here
+    dict(rc=[1.0, 0.06], zs=[0.0, 0.05], rs=[0.0, 0.004], zc=[0.0, 0.003], nfp=2, etabar=0.9, order='r3', B2c=0.1, B2s=0.05, I2=0.2, B0=0.8, p2=-30000.0, sG=-1, nphi=61),
     # weakly shaped axis at second order: B20 is nearly uniform (one-pass variance formulas cancel catastrophically)
     dict(rc=[1.0, 2.0e-5], zs=[0.0, 2.0e-5], nfp=2, etabar=0.9, order='r2', B2c=0.3, p2=-1.0e5, I2=0.7, nphi=21),
 ]
